@@ -195,13 +195,17 @@ CLAIMED["C29"] = ("Proof over the generated path-struct API and the resolution k
     "methods, builder-style key methods, uncompressed schemas (the generator rejects them), schemas outside the corpus.", "5 (C29)", "")
 
 CLAIMED["C33"] = ("Proof over the generated code: the working tree's generator is run on the key-type corpus and the compressed repository schema (thorough: also "
-    "the uncompressed one), and for every generated struct's PopulateDefaults (26 in the quick corpus) it is proved that (a) every leaf that has a YANG default - "
+    "the uncompressed one), and for every generated struct's PopulateDefaults (46 in the quick corpus) it is proved that (a) every leaf that has a YANG default - "
     "taken from the schema through goyang, including typedef defaults - and was unset holds that default afterwards (string, integer, boolean leaves by value; "
     "enumeration / identityref leaves through the generated value table), and (b) every leaf that was set keeps its pointer and value, and every leaf without a "
     "default is unchanged whether set or not. Children, list entries and ordered-list entries are populated by their own PopulateDefaults, called by contract "
     "(same template); the frame is type-level (`modifies subtree(t)`: fields of the struct's type and of the struct types below it). ygot.BuildEmptyTree is "
-    "a trusted library model (only nil struct-pointer fields of the subtree change). Not covered: that every child container and list entry is actually visited (each struct's contract speaks about its own leaves; a list the parent "
-    "forgets to walk is not detected - seed C33-2), defaults of union, decimal64, binary and leaf-list leaves "
+    "a trusted library model (only nil struct-pointer fields of the subtree change). (c) Visiting: a ghost history set per struct type records the objects for which PopulateDefaults has returned, and every "
+    "PopulateDefaults is proved to have handed every non-nil child container and every entry of every map-based child list to the child's "
+    "PopulateDefaults (loop invariants over the map-range ghost set; the corpus includes the key-type schema generated with ordered-by-user lists as plain "
+    "maps), the history sets only growing. Not covered: that the entries of ordered maps (ordered-by user lists in their default representation) are "
+    "visited - and the well-formedness of those maps, which their Values() method requires, is assumed at that call; defaults of union, decimal64, binary "
+    "and leaf-list leaves "
     "(listed per struct in the evidence), the second sentence of the property (a tree that validated still validates - ytypes.Validate is a reflection walker), "
     "schemas outside the corpus.", "5 (C33)", "")
 
